@@ -16,7 +16,7 @@ func init() {
 	Register(&Rule{
 		ID:    "R-FRAME",
 		Doc:   "on Decoder.readValue: (i) the success return after parseValue is guarded by a test of the remainder length, the sticky error or the value kind (a value ending exactly at the end of buffered data may be a prefix); (ii) the reader is called only after dec.err tested nil; (iii) every path to the read passes the first allocation or the tail compaction, and growth copies before replacing the buffer; (iv) inputOffset only ever increases by non-negative lengths",
-		Props: []string{"C11"},
+		Props: []string{"C11", "C06"},
 		Min:   map[string]int{"C11": 5},
 		Run:   runFrame,
 	})
@@ -203,7 +203,7 @@ func runFrame(c *core.Ctx) []core.Obligation {
 		if ok {
 			b.ok(key, c.InstrPos(readFull), "the read is dominated by the nil branch of the dec.err test")
 		} else {
-			b.bad(key, c.InstrPos(readFull), "the reader is called on a path where dec.err was not tested nil: after a terminal error the reader is called again and its data or a different error is observed")
+			b.addP([]string{"C11", "C06"}, core.Violation, key, c.InstrPos(readFull), "the reader is called on a path where dec.err was not tested nil (a reader that keeps failing is then called for ever: Decode never returns): after a terminal error the reader is called again and its data or a different error is observed")
 		}
 	}
 
